@@ -25,7 +25,7 @@ def c11_casesv(lines):
 ID = "C11"
 CFG = dict(
     propfile="Properties/C11.v",
-    coq_deps=["Lib/NetIP", "Lib/CidrSet", "Model/Filter", "Proofs/FilterP", "Properties/C11", "Check/C11"],
+    coq_deps=["Lib/NetIP", "Lib/CidrSet", "Model/Filter", "Proofs/FilterP", "Proofs/NetIPP", "Properties/C11", "Check/C11"],
     ocaml="c11",
     casesv=c11_casesv,
     coq_sample={"quick": 6, "thorough": 24},
@@ -40,8 +40,8 @@ CFG = dict(
                   "Lib/NetIP.v is my reading of net.IP.To4, net.IPMask.Size and binary.BigEndian.Uint32 (Go standard library); "
                   "it is exercised against the real functions through every Add/Remove/Contains of the harness"],
     assumptions=["sequential use (C12 covers concurrency)",
-                 "an argument is 'an IPv4 CIDR' iff Mask.Size() gives bits = 32 and the address slice has 4 bytes (the code's own test; "
-                 "Lib/CidrSet.cidr_arg)",
+                 "an argument is 'an IPv4 CIDR' iff Mask.Size() gives bits = 32 and the address slice has 4 bytes (Lib/CidrSet.cidr_arg); "
+                 "C11_valid_argument_meaning proves this is: 4-byte mask equal to the netmask 2^32-2^(32-n) of some n <= 32, 4-byte address",
                  "nil *net.IPNet arguments (a nil-pointer panic in Mask.Size) are outside the statement"],
 )
 CFG["manifest"] = dict(
@@ -49,7 +49,8 @@ CFG["manifest"] = dict(
           "history of any length and every probe slice: an abstraction function maps the concrete state (256-slot list with zeroed "
           "slots, or the 32 per-length sets) to the plain live set, every operation including the one-way migration commutes with "
           "it, and the scan answers membership in it; the mask table is checked entry by entry against 2^32-2^(32-n) "
-          "(C11_mask_table) and covers is shown to mean 'same top n bits' (C11_covers_meaning). "
+          "(C11_mask_table), covers is shown to mean 'same top n bits' (C11_covers_meaning) and the accepted arguments are exactly "
+          "the 4-byte netmasks with 4-byte addresses (C11_valid_argument_meaning, over a model of net.IPMask.Size). "
           "Tie: generated histories are run on the real filter; the extracted Coq function replays each line on the model and "
           "on the specification and judges every returned error and boolean."),
     note=("Trusted: Coq kernel; the hand-written model Model/Filter.v (tied to the code differentially, not by translation); "
